@@ -16,7 +16,8 @@ RULE = (
     "attributes hold non-ASCII and markup-significant characters, envelope children in varied order; "
     "plus Hypothesis single steps.  Oracle, at every state reached: s = str(ro) parses; "
     "MosFile.from_string(s) is exactly a RunningOrder; its str() == s; same story/item ID sequences "
-    "and completed flag; ro.xml and the re-parsed tree are canon-equal (text, tails, attributes); the "
+    "and completed flag - read both from the XML and through the library's accessors (stories, items, "
+    "slugs, ro_slug, ro_id, message_id, script) on the in-memory object and on the object read back; ro.xml and the re-parsed tree are canon-equal (text, tails, attributes); the "
     "root has exactly one roCreate child and at most one mosromgrmeta child; message_id equals the "
     "roCreate's original one and ro_id the original one (messages are addressed to this running "
     "order); bytes round trip (utf-8) gives the same.  Non-trivial = the state is the result of >= 1 "
@@ -56,6 +57,12 @@ def check_state(ro, orig_mid, orig_ro_id, where):
         fail('tree-differs-after-roundtrip', xmlcmp.first_diff(canon(ro.xml), canon(rt.xml)))
     if xmlcmp.state_of(ro.xml) != xmlcmp.state_of(rt.xml) or ro.completed != rt.completed:
         fail('state-differs-after-roundtrip', 'stories/items/completed differ')
+    # the same through the library's own eyes: the object in memory and the object
+    # read back must present the same running order
+    va, vb = _view(ro), _view(rt)
+    if va != vb:
+        fail('accessor-view-differs-after-roundtrip',
+             f'in memory: {va}; read back: {vb}', vb, va)
     n_rc = len([c for c in root if c.tag == 'roCreate'])
     n_meta = len([c for c in root if c.tag == 'mosromgrmeta'])
     if n_rc != 1:
@@ -70,6 +77,22 @@ def check_state(ro, orig_mid, orig_ro_id, where):
     except Exception as e:
         fail('envelope-accessor-raised', f'{type(e).__name__}: {e}')
     return fails
+
+
+def _view(ro):
+    def get(fn):
+        try:
+            with warnings.catch_warnings():
+                warnings.simplefilter('ignore')
+                return fn()
+        except Exception as e:
+            return f'EXC {type(e).__name__}'
+    return {
+        'stories': get(lambda: [(s.id, s.slug, [i.id for i in s.items]) for s in ro.stories]),
+        'ro_slug': get(lambda: ro.ro_slug), 'ro_id': get(lambda: ro.ro_id),
+        'message_id': get(lambda: ro.message_id), 'completed': get(lambda: ro.completed),
+        'base_tag': get(lambda: ro.base_tag.tag), 'script': get(lambda: ro.script),
+    }
 
 
 def _special(s):
